@@ -68,3 +68,26 @@ class FakeConn:
 
     def executescript(self, sql):
         raise NotImplementedError
+
+
+class FakeDbList:
+    """SqliteMetadataStore.dbs stand-in: a list of connections, connection i belongs to shard i"""
+
+    def __getitem__(self, i):
+        raise NotImplementedError
+
+    def __len__(self):
+        raise NotImplementedError
+
+    def commit_all_marker(self):
+        raise NotImplementedError
+
+
+class FakeShardConn:
+    shard: int
+
+    def execute(self, sql, params=()):
+        raise NotImplementedError
+
+    def commit(self):
+        raise NotImplementedError
